@@ -38,7 +38,7 @@ BUDGET = {"quick": (300, 85), "thorough": (700, 800)}
 THEORIES = [("stR", False, False, False), ("stR", False, True, False), ("stR", True, False, False),
             ("stR", False, False, True), ("stR", True, True, False), ("stF", False, False, False),
             ("stF", True, False, False), ("cRF", False, False, False), ("cRF", False, False, True),
-            ("cRF", True, False, False)]
+            ("cRF", True, False, False), ("neF", True, False, False)]
 
 
 @st.composite
@@ -57,8 +57,10 @@ def _case(draw, big):
                   st.sampled_from([0, 0, 1, 2]), st.integers(0, 1), st.sampled_from(["short-exp", "short-exp-2", "short-exp-6"]),
                   st.sampled_from(["set", "set", "arg", "default", "default"]), st.sampled_from([1, 2, 5]),
                   st.sampled_from([pd_pref, pd_pref, pd_pref, None, "Lorentzian", "Gaussian"])),
-        st.builds(lambda r, L, h: {"op": "sv", "psi": r, "L": L, "hfce": h}, st.integers(0, 1), st.sampled_from([2, 4]),
-                  st.sampled_from([False, False, True])),
+        # (state-vector propagation; "inside": the call is made inside the eigenbasis of the Hamiltonian and the result
+        # is read after the context has been left - the same evolution)
+        st.builds(lambda r, L, h, i: {"op": "sv", "psi": r, "L": L, "hfce": h, "inside": i}, st.integers(0, 1),
+                  st.sampled_from([2, 4]), st.sampled_from([False, False, True]), st.sampled_from([False, False, True])),
         # closed-system propagation on a time axis that does not start at zero, converted from the rotating frame
         st.builds(lambda r: {"op": "rdm_shifted", "rho": r}, st.integers(0, 1)),
         st.builds(lambda r: {"op": "pop", "p": r}, st.integers(0, 1)),
@@ -122,6 +124,11 @@ def grid(tier):
         # every kind of tensor built twice with another one in between
         seqs.append([{"op": "tensor", "theory": th, "slot": 0}, {"op": "tensor", "theory": (th + 3) % len(THEORIES), "slot": 1},
                      {"op": "tensor", "theory": th, "slot": 0}])
+    SV0 = {"op": "sv", "psi": 0, "L": 4, "hfce": False, "inside": False}
+    TN = {"op": "tensor", "theory": len(THEORIES) - 1, "slot": 0}
+    seqs.append([TN, rdm("default", 1), dict(rdm("default", 1), rho=1), rdm("default", 1), dict(rdm("default", 1), rho=1)])
+    seqs.append([T0, SV0, dict(SV0, inside=True), SV0])
+    seqs.append([T0, dict(SV0, inside=True), SV0])
     kinds = [rdm("default", 1), rdm("arg", 2, "Lorentzian"), {"op": "sv", "psi": 0, "L": 4, "hfce": False},
              {"op": "rdm_shifted", "rho": 1}, {"op": "pop", "p": 0}, {"op": "popmat", "corr": 0},
              {"op": "rdm_refused", "slot": 0, "rho": 0, "nref": 2}, {"op": "look", "what": "rwa_data", "units": "1/cm"},
@@ -276,7 +283,7 @@ def check_case(case, ctx):
                 key = ("tensor", th, td, as_ops, sec)
                 where = "tensor/%s%s%s%s" % (th, "/td" if td else "", "/ops" if as_ops else "", "/secular" if sec else "")
                 kw = dict(relaxation_theory={"stR": "standard_Redfield", "stF": "standard_Foerster",
-                                             "cRF": "combined_RedfieldFoerster"}[th],
+                                             "cRF": "combined_RedfieldFoerster", "neF": "noneq_Foerster"}[th],
                           time_dependent=td, secular_relaxation=sec)
                 if th == "stR":
                     kw["as_operators"] = as_ops
@@ -326,7 +333,17 @@ def check_case(case, ctx):
                     # the same call on a propagator that has no history: same inputs, same refinement
                     nonlocal fresh
                     if used_before:
-                        fp = make_prop()
+                        if RT is not None and getattr(RT, "has_Iterm", False):
+                            # (a tensor with a term that depends on the initial state: the reference gets a tensor of
+                            # its own, built from the same inputs)
+                            th_, td_, ao_, sec_ = [t for t in THEORIES if ("tensor",) + t == pool.slots[op["slot"]][2]][0]
+                            RT2, h2 = gens.make_aggregate(qr, case["spec"]).get_RelaxationTensor(
+                                pool.ta, relaxation_theory="noneq_Foerster", time_dependent=td_)
+                            fp = ReducedDensityMatrixPropagator(pool.ta, h2, RT2)
+                        else:
+                            fp = make_prop()
+                        if False:
+                            pass
                         if nref_set != 1:
                             fp.setDtRefinement(nref_set)
                         if nref_arg is None:
@@ -362,6 +379,11 @@ def check_case(case, ctx):
                     where = "sv/hfce"
                     return numpy.array(pool.svprop.propagate(pool.psis[op["psi"]], L=op["L"],
                                                              hfce=lambda t: pool.ham).data)
+                if op.get("inside"):
+                    where = "sv/inside-eigenbasis"
+                    with qr.eigenbasis_of(pool.ham):
+                        ev_ = pool.svprop.propagate(pool.psis[op["psi"]], L=op["L"])
+                    return numpy.array(ev_.data)
                 return numpy.array(pool.svprop.propagate(pool.psis[op["psi"]], L=op["L"]).data)
             if kind == "rdm_shifted":
                 key = ("rdm_shifted", op["rho"])
